@@ -5,6 +5,7 @@ use serde_json::{json, Value};
 
 mod c07;
 mod c08;
+mod c12;
 mod c18;
 mod memclient;
 mod c20;
@@ -37,6 +38,7 @@ fn run(name: &str, args: &Value) -> Value {
         "c20_script" => c20::script(args),
         "c20_tuple" => c20::tuple(args),
         "c18_lifecycle" => c18::lifecycle(args),
+        "c12_ws_batch" => c12::ws_batch(args),
         "c08_append" => c08::append(args),
         "c08_response" => c08::response(args),
         other => {
